@@ -157,6 +157,8 @@ def run(chk):
             what, key = 'recorded exception %r, model %r' % (obs.get('exception'), row['recorded']), 'exc:recorded'
         elif (raised is not None) != row['reraised']:
             what, key = 'thread re-raised: %r, model %r' % (raised, row['reraised']), 'exc:reraise'
+        elif raised is not None and kind(raised) != row['recorded']:
+            what, key = 'the thread re-raised %r, not the last exception of the chain (%r)' % (raised, row['recorded']), 'exc:reraise-other'
         elif not row['reconnected'] and not (sc0 and sc0.client_closed):
             what, key = 'the connection was not closed', 'exc:not-closed'
         elif not row['reconnected'] and obs['slot_after'] != (None, None):
